@@ -142,6 +142,37 @@ def sweep(ctx, n):
             if not np.array_equal(np.asarray(res), np.asarray(res2), equal_nan=True):
                 fails.append({"key": f"second-call-differs:{fault}", "desc": "calling again returned a different result",
                               "replay": {"fault": fault, "field": field}})
+    # minimal calls: ONE source of its kind (alone or next to sources of other classes), static, evaluated at exactly ONE point
+    # (bare position or single-pixel Sensor) - shortcuts that skip a tile/repeat copy hand the object's own arrays to the kernel
+    for i in range(max(len(CLASSES) + 2, n // 3)):
+        nps = np.random.default_rng(rng.randrange(2**31))
+        cls = (CLASSES + ["Tetrahedron", "Tetrahedron"])[i % (len(CLASSES) + 2)]
+        src = make(cls, nps)
+        if cls == "Tetrahedron":
+            v = np.array(src.vertices)
+            if np.linalg.det(v[1:] - v[0]) > 0:  # make it left-handed: check_chirality reorders such vertices in its input
+                src.vertices = v[[0, 1, 3, 2]]
+        others = [make(c, nps) for c in rng.sample([c for c in CLASSES if c != cls], rng.choice([0, 0, 1, 2]))]
+        obs = far_points(nps, 1, lo=3, hi=6)[0] if i % 2 else magpy.Sensor(position=far_points(nps, 1, lo=3, hi=6)[0])
+        srcs = [src] + others
+        rng.shuffle(srcs)
+        objs = all_objs(srcs + ([obs] if not isinstance(obs, np.ndarray) else []))
+        before = [snap_obj(o) for o in objs]
+        field = rng.choice(["B", "H"])
+        import warnings
+        with warnings.catch_warnings():
+            warnings.simplefilter("ignore")
+            r1 = getattr(magpy, "get" + field)(srcs, obs)
+            after = [snap_obj(o) for o in objs]
+            r2 = getattr(magpy, "get" + field)(srcs, obs)
+        done += 1
+        kinds["minimal:" + cls] = kinds.get("minimal:" + cls, 0) + 1
+        changed = [(type(o).__name__, k) for o, b, a in zip(objs, before, after) for k in b if b[k] != a.get(k)]
+        if changed:
+            fails.append({"key": f"mutation:minimal-call:{sorted(set(k for _, k in changed))[0]}", "desc": f"get{field} of a single static {cls} at one point changed {sorted(set(changed))[:4]}",
+                          "replay": {"class": cls, "field": field, "changed": sorted(set(changed))[:8], "others": [type(o).__name__ for o in others]}})
+        elif not np.array_equal(np.asarray(r1), np.asarray(r2), equal_nan=True):
+            fails.append({"key": "second-call-differs:minimal-call", "desc": "calling again returned a different result", "replay": {"class": cls, "field": field}})
     # caller-owned arrays through the functional interface and the core functions (float64 ndarrays, stacks of n >= 2)
     from oracles.sources import params
     n_dict = 0
